@@ -1,3 +1,421 @@
-import Kurbo.Path
+import Proofs.Lemmas.C07
+import Proofs.Lemmas.C07Rev
+import Proofs.Lemmas.C07Path
+import Proofs.Lemmas.C07Inst
+/-! # C07 – the element view and the segment view of a path are coherent
+
+Theorems about the hand-written model `Kurbo/Path.lean` (`segStep/segsIdxFrom/segsIdx/segs`, `subpathStart`,
+`getSeg`, `fromPathSegments`, `reverseSubpath`, `reverseSubpaths`), exactly as it is defined there.
+
+Scalars.  Purely structural theorems hold for every `[Scalar K]` (also `Float`).  Theorems that depend on the
+outcome of the point comparison `Point.peq` assume `[LawfulPeq K]` (`a.peq b = true ↔ a = b`, defined in
+`Proofs/Lemmas/C07.lean`); `Proofs/Lemmas/C07Inst.lean` proves `LawfulPeq K` for every `LawfulScalar K`, hence for
+`Rat`.  `Float` is NOT an instance (`NaN ≠ NaN`, `0.0 == -0.0`): for `Float` only the `[Scalar K]` theorems apply.
+
+What is proved (all for arbitrary lists / arbitrary length):
+* 1 `segs_total`, `segs_closePath_first`, `segs_eq_none_iff`: `segments` panics iff the first element is `ClosePath`.
+* 2 `segsIdxFrom_append`, `segStateAfter_append`, `segs_append`, `segsIdxFrom_eq_none_iff`: fold law (state after a prefix = `segStateAfter`).
+* 3 `close_contributes_iff`: `ClosePath` emits `Line(last,start)` iff `last ≠ start`; the new current point is `start`.
+* 4 `segState_invariant`, `getSeg_spec`: for every path starting with `MoveTo` and EVERY index `ix`,
+    `getSeg els ix` is the segment the iterator emits while consuming element `ix` (none if it emits none);
+    `segs_eq_filterMap_getSeg`: `segs els = (List.range els.length).filterMap (getSeg els)`.
+* 5 `segs_fromPathSegments`, `fromPathSegments_moves`.
+* 6a `reverseSubpath_block`, `reverseSubpath_isSome_iff`: block level (run of drawing elements): reversed
+    segments in reverse order, ends at the old start, reversing twice restores the run; panics iff the run
+    contains a `MoveTo`/`ClosePath`.
+* 6b path level, for EVERY path starting with `MoveTo` (any number of sub-paths, implicit sub-paths after
+    `ClosePath`, lone `MoveTo`s, doubled `ClosePath`s …), via the sub-path decomposition `subpaths`
+    (`Proofs/Lemmas/C07Path.lean`; a sub-path = start point, run of drawing elements, closed flag):
+    `reverseSubpaths_spec` (never panics; output = each sub-path reversed, same order, closedness kept),
+    `segs_subpaths` (segments of a path = concatenation of its sub-paths' segments, so `subpaths` is faithful),
+    `subpaths_render`, `subpath_rev_segs_open`, `subpath_rev_segs_closed`, `subpath_rev_segs_rotate`
+    (closed sub-path: the reversed closing line comes LAST instead of FIRST, i.e. rotation by one, because the
+    reversed sub-path starts at the last point of the body), `reverse_segs`, `reverse_reverse_els`,
+    `reverse_reverse_segs`; and, in terms of the model functions only, the single-sub-path cases
+    `reverse_single_open` (`MoveTo p :: body`) and `reverse_single_closed` (`MoveTo p :: body ++ [ClosePath]`).
+* 7 `builder_history_irrelevant` is trivial in this model and therefore not a theorem here: `segs`, `getSeg`, … are
+    functions of the final element list only; the builder operations are list operations.
+* "the Shape segment iterator agrees": in the crate `Shape::path_segments` is `segments(self.path_elements(tol))`
+    and `BezPath::path_elements` iterates the element vector, i.e. it is the very function modelled by `segs`;
+    there is no second definition to compare with in this model.
+* Remark on `getSeg`: the model follows the crate after the commit "fix: BezPath::get_seg agrees with segments()
+    after a ClosePath" (DESIGN.md 5.b); `getSeg_spec` holds for it without any side condition on element `ix−1`
+    or on degenerate sub-paths (`M p Z`, `M … Z M q Z`), see the two `example`s there.
+
+What is NOT proved here:
+* Nothing about `Float` beyond the `[Scalar K]`-only statements (items 1, 2, 6a element level, `reverseSubpaths_spec`,
+    `reverse_reverse_els`).
+* Paths that do not start with `MoveTo` (the crate's debug assertion excludes them): `getSeg_spec`, and the
+    path-level reversal theorems assume a leading `MoveTo` (without it `reverseSubpaths` skips element 0 and
+    starts from the default point (0,0), while `segs` uses the end point of element 0 as start).
+* `pathArea` (`Segments::area`) is not part of this property.
+-/
+set_option linter.unusedSectionVars false
 namespace Kurbo
+variable {K : Type} [Scalar K]
+
+/-! ## 1  totality -/
+
+/-- `segments` does not panic unless the very first element is `ClosePath` (any `Scalar`, also `Float`) -/
+theorem segs_total (el : PathEl K) (rest : List (PathEl K)) (h : el ≠ .ClosePath) :
+    segs (el :: rest) ≠ none := by
+  have key : ∀ sl out, segStep none el = some (some sl, out) → segs (el :: rest) ≠ none := by
+    intro sl out hs
+    simp only [segs, segsIdx, segsIdxFrom, hs, segsIdxFrom_some]
+    simp
+  cases el with
+  | ClosePath => exact absurd rfl h
+  | MoveTo p => exact key _ _ rfl
+  | LineTo p => exact key _ _ rfl
+  | QuadTo p1 p2 => exact key _ _ rfl
+  | CurveTo p1 p2 p3 => exact key _ _ rfl
+example : (PathEl.MoveTo (⟨0, 0⟩ : Point Rat)) ≠ .ClosePath := by decide
+
+theorem segs_nil : segs ([] : List (PathEl K)) = some [] := rfl
+
+/-- "Can't start a segment on a ClosePath" -/
+theorem segs_closePath_first (rest : List (PathEl K)) : segs (.ClosePath :: rest) = none := rfl
+
+theorem segs_eq_none_iff (els : List (PathEl K)) : segs els = none ↔ ∃ rest, els = .ClosePath :: rest := by
+  constructor
+  · intro h
+    cases els with
+    | nil => cases h
+    | cons el rest =>
+      cases el with
+      | ClosePath => exact ⟨rest, rfl⟩
+      | MoveTo p => exact absurd h (segs_total _ _ (by intro e; cases e))
+      | LineTo p => exact absurd h (segs_total _ _ (by intro e; cases e))
+      | QuadTo p1 p2 => exact absurd h (segs_total _ _ (by intro e; cases e))
+      | CurveTo p1 p2 p3 => exact absurd h (segs_total _ _ (by intro e; cases e))
+  · rintro ⟨rest, rfl⟩; rfl
+
+/-! ## 2  fold law -/
+
+/-- consuming `a ++ b` = consuming `a`, then `b` from the state reached (`segStateAfter`), indices shifted -/
+theorem segsIdxFrom_append (st : SegSt K) (ix : Nat) (a b : List (PathEl K)) :
+    segsIdxFrom st ix (a ++ b) =
+      match segStateAfter st a, segsIdxFrom st ix a with
+      | some st', some la => (segsIdxFrom st' (ix + a.length) b).map (la ++ ·)
+      | _, _ => none :=
+  segsIdxFrom_append' st ix a b
+
+theorem segStateAfter_append (st : SegSt K) (a b : List (PathEl K)) :
+    segStateAfter st (a ++ b) = (segStateAfter st a).bind fun st' => segStateAfter st' b := by
+  induction a generalizing st with
+  | nil => rfl
+  | cons el rest ih =>
+    simp only [List.cons_append, segStateAfter]
+    cases segStep st el with
+    | none => rfl
+    | some r => exact ih r.1
+
+/-- fold law at the level of `segs`, for a path starting with `MoveTo` -/
+theorem segs_append (p : Point K) (a b : List (PathEl K)) :
+    ∃ sl, segStateAfter none (.MoveTo p :: a) = some (some sl) ∧
+      segs (.MoveTo p :: a ++ b)
+        = (segs (.MoveTo p :: a)).bind fun sa => (segsIdxFrom (some sl) 0 b).map fun lb => sa ++ lb.map (·.2) := by
+  refine ⟨stAfterT (p, p) a, segStateAfter_moveTo p a, ?_⟩
+  rw [List.cons_append, segs_moveTo, segs_moveTo, segsT_append, segsIdxFrom_some, Option.bind_some,
+    Option.map_some, map_snd_segsIdxT]
+
+/-- the iterator panics on a prefix exactly when its state is lost -/
+theorem segsIdxFrom_eq_none_iff (st : SegSt K) (ix : Nat) (a : List (PathEl K)) :
+    segsIdxFrom st ix a = none ↔ segStateAfter st a = none := by
+  induction a generalizing st ix with
+  | nil => simp [segsIdxFrom, segStateAfter]
+  | cons el rest ih =>
+    simp only [segsIdxFrom, segStateAfter]
+    cases segStep st el with
+    | none => simp
+    | some r =>
+      obtain ⟨st', out⟩ := r
+      simp only
+      rw [← ih st' (ix + 1)]
+      cases segsIdxFrom st' (ix + 1) rest <;> simp
+
+/-! ## 3  ClosePath -/
+
+/-- In state `(start, last)` a `ClosePath` never panics, makes `start` the current point, and emits the closing
+    line `Line(last, start)` exactly when `last ≠ start` (nothing otherwise). -/
+theorem close_contributes_iff [LawfulPeq K] (start last : Point K) :
+    ∃ out, segStep (some (start, last)) .ClosePath = some (some (start, start), out) ∧
+      (out = some (.Line ⟨last, start⟩) ↔ last ≠ start) ∧ (out = none ↔ last = start) := by
+  by_cases h : last = start
+  · subst h
+    refine ⟨none, ?_, by simp, by simp⟩
+    simp [segStep]
+  · refine ⟨some (.Line ⟨last, start⟩), ?_, by simp [h], by simp [h]⟩
+    simp [segStep, (peq_false_iff last start).2 h]
+
+/-! ## 4  random access by element index -/
+
+/-- Invariant of the iterator: after consuming a non-empty prefix `MoveTo p0 :: t` of a path, the state is
+    `(S, L)` where `S` is what `subpathStart` finds for the next index and `L` is the end point of the last
+    consumed element, or `S` if that element is `ClosePath`. -/
+theorem segState_invariant [LawfulPeq K] (p0 : Point K) (t post : List (PathEl K)) :
+    ∃ S, subpathStart (.MoveTo p0 :: t ++ post) (t.length + 1) = some S ∧
+      segStateAfter none (.MoveTo p0 :: t)
+        = some (some (S, (((PathEl.MoveTo p0 :: t).getLast?.bind PathEl.end_point).getD S))) := by
+  refine ⟨(stAfterT (p0, p0) t).1, ?_, ?_⟩
+  · have ht : (PathEl.MoveTo p0 :: t ++ post).take (t.length + 1) = .MoveTo p0 :: t := by
+      rw [List.take_left' (by simp)]
+    rw [subpathStart_eq, ht, stAfterT_start, List.reverse_cons, List.findSome?_append]
+    cases t.reverse.findSome? mvPt <;> rfl
+  · have h0 : segStateAfter none (.MoveTo p0 :: t) = segStateAfter (some (p0, p0)) t := rfl
+    rw [h0, segStateAfter_some]
+    congr 2
+    refine Prod.ext rfl ?_
+    induction t using snoc_induction with
+    | nil => rfl
+    | snoc t' prev _ =>
+      rw [← List.cons_append, List.getLast?_concat, stAfterT_snoc, stepT_last, stepT_start]
+      cases prev <;> rfl
+
+/-- **`get_seg` agrees with `segments`**: for a path starting with `MoveTo` and every `ix` (in or out of range),
+    `getSeg els ix` is the segment that the iterator emits while consuming element `ix` – `none` if it emits
+    none there (`MoveTo`, `ClosePath` on an already closed sub-path, `ix` out of range). -/
+theorem getSeg_spec [LawfulPeq K] (p0 : Point K) (tl : List (PathEl K)) (ix : Nat) :
+    getSeg (.MoveTo p0 :: tl) ix
+      = (((segsIdx (.MoveTo p0 :: tl)).getD []).find? (fun q => decide (q.1 = ix))).map (·.2) := by
+  rw [getSeg_spec_aux]
+  congr 2
+example : getSeg (K := Rat) [.MoveTo ⟨0,0⟩, .LineTo ⟨1,0⟩, .ClosePath, .LineTo ⟨1,1⟩] 3
+    = some (.Line ⟨⟨0,0⟩,⟨1,1⟩⟩) := by decide +kernel
+example : getSeg (K := Rat) [.MoveTo ⟨0,0⟩, .ClosePath, .MoveTo ⟨5,5⟩, .ClosePath] 3 = none := by decide +kernel
+
+/-- **iterating = looking up every index**: the list produced by `segments` is the list of the `get_seg ix`
+    that are `Some`, for `ix = 0, 1, …, len-1` in order -/
+theorem segs_eq_filterMap_getSeg [LawfulPeq K] (p0 : Point K) (tl : List (PathEl K)) :
+    segs (.MoveTo p0 :: tl)
+      = some ((List.range (tl.length + 1)).filterMap (getSeg (.MoveTo p0 :: tl))) :=
+  segs_eq_filterMap_getSeg_aux p0 tl
+
+/-! ## 5  from_path_segments -/
+
+/-- rebuilding a path from any list of segments yields exactly these segments (no segment is lost or altered) -/
+theorem segs_fromPathSegments [LawfulPeq K] (ss : List (PathSeg K)) : segs (fromPathSegments ss) = some ss :=
+  segs_fromPathSegments_aux ss
+
+/-- … with the same connectivity: one `MoveTo` at the beginning and one per discontinuity
+    (`adjacentPairs ss = ss.zip ss.tail`), no spurious breaks -/
+theorem fromPathSegments_moves [LawfulPeq K] [DecidableEq K] (ss : List (PathSeg K)) :
+    (fromPathSegments ss).countP PathEl.isMoveTo
+      = if ss = [] then 0 else 1 + (adjacentPairs ss).countP (fun p => decide (p.1.end ≠ p.2.start)) := by
+  cases ss with
+  | nil => rfl
+  | cons s rest =>
+    rw [if_neg (List.cons_ne_nil _ _), ← countP_fromPathSegmentsAux]
+    show (PathEl.MoveTo s.start :: s.as_path_el :: fromPathSegmentsAux (some s.end) rest).countP _ = _
+    rw [List.countP_cons, List.countP_cons, isMoveTo_as_path_el]
+    simp [PathEl.isMoveTo]; omega
+example : (fromPathSegments (K := Rat) [.Line ⟨⟨0,0⟩,⟨1,0⟩⟩, .Line ⟨⟨1,0⟩,⟨1,1⟩⟩, .Line ⟨⟨2,2⟩,⟨0,0⟩⟩])
+    = [.MoveTo ⟨0,0⟩, .LineTo ⟨1,0⟩, .LineTo ⟨1,1⟩, .MoveTo ⟨2,2⟩, .LineTo ⟨0,0⟩] := by decide +kernel
+
+/-! ## 6a  reversal of one run of drawing elements (`reverse_subpath`) -/
+
+/-- `reverse_subpath` panics exactly when the run contains a `MoveTo` or a `ClosePath` (any `Scalar`) -/
+theorem reverseSubpath_isSome_iff (start_pt : Point K) (body : List (PathEl K)) :
+    (reverseSubpath start_pt body).isSome = true ↔ AllDraw body := by
+  constructor
+  · intro h
+    apply Classical.byContradiction
+    intro hn
+    rw [reverseSubpath_none _ _ hn] at h
+    cases h
+  · intro h
+    rw [reverseSubpath_eq _ _ h]; rfl
+
+/-- **Block level.**  For a run `body` of drawing elements (`LineTo/QuadTo/CurveTo`) drawn from `start_pt`
+    (any `Scalar`, also `Float`: no point comparison is involved):
+    `reverseSubpath start_pt body = MoveTo endp :: rev` where `endp` is where `body` ends, `rev` is again a run
+    of drawing elements that, drawn from `endp`, ends at `start_pt` and yields exactly the reversed segments of
+    `body` in reverse order; and reversing `rev` from `endp` gives back `MoveTo start_pt :: body`. -/
+theorem reverseSubpath_block (start_pt : Point K) (body : List (PathEl K)) (h : AllDraw body) :
+    ∃ endp rev, reverseSubpath start_pt body = some (.MoveTo endp :: rev) ∧ AllDraw rev ∧
+      rev.length = body.length ∧
+      segStateAfter none (.MoveTo start_pt :: body) = some (some (start_pt, endp)) ∧
+      segStateAfter none (.MoveTo endp :: rev) = some (some (endp, start_pt)) ∧
+      segs (.MoveTo endp :: rev)
+        = (segs (.MoveTo start_pt :: body)).map (fun ss => ss.reverse.map PathSeg.reverse) ∧
+      reverseSubpath endp rev = some (.MoveTo start_pt :: body) := by
+  have hr := revBody_isDraw start_pt body h
+  refine ⟨runEnd start_pt body, revBody start_pt body, reverseSubpath_eq _ _ h, hr, ?_, ?_, ?_, ?_, ?_⟩
+  · clear hr h
+    induction body generalizing start_pt with
+    | nil => rfl
+    | cons e es ih => simp only [revBody, List.length_append, ih, List.length_cons, List.length_nil]
+  · rw [segStateAfter_moveTo, stAfterT_draw _ _ _ h]
+  · rw [segStateAfter_moveTo, stAfterT_draw _ _ _ hr, runEnd_revBody _ _ h]
+  · rw [segs_moveTo, segs_moveTo, segsT_revBody start_pt _ _ _ h, Option.map_some, List.map_reverse]
+  · rw [reverseSubpath_eq _ _ hr, runEnd_revBody _ _ h, revBody_revBody _ _ h]
+example : AllDraw (K := Rat) [.LineTo ⟨1,0⟩, .QuadTo ⟨1,1⟩ ⟨0,1⟩] := by
+  intro e he; simp at he; rcases he with rfl | rfl <;> rfl
+example : reverseSubpath (K := Rat) ⟨0,0⟩ [.LineTo ⟨1,0⟩, .QuadTo ⟨1,1⟩ ⟨0,1⟩, .CurveTo ⟨0,2⟩ ⟨0,3⟩ ⟨0,4⟩]
+    = some [.MoveTo ⟨0,4⟩, .CurveTo ⟨0,3⟩ ⟨0,2⟩ ⟨0,1⟩, .QuadTo ⟨1,1⟩ ⟨1,0⟩, .LineTo ⟨0,0⟩] := by decide +kernel
+
+/-! ## 6b  reversal of a whole path (`reverse_subpaths`)
+
+`subpaths els` (Lemmas/C07Path.lean) cuts an element list that starts with `MoveTo` into sub-paths
+`⟨start, body, closed⟩`: a sub-path starts at a `MoveTo`, or implicitly (at the previous start point) after a
+`ClosePath`; it ends with `ClosePath` (closed) or at the next `MoveTo` / the end of the list (open).  An implicit
+open sub-path without drawing elements is not recorded; a lone `MoveTo` is.
+`Subpath.render b = MoveTo b.start :: b.body ++ [ClosePath if closed]`,
+`Subpath.segs b` = the segments of `b.render`,
+`Subpath.rev b = ⟨end point of the body, reversed body, same closed flag⟩`. -/
+
+/-- the decomposition is faithful to `segments`: the segments of a path are those of its sub-paths, in order -/
+theorem segs_subpaths [LawfulPeq K] (p0 : Point K) (tl : List (PathEl K)) :
+    segs (.MoveTo p0 :: tl) = some ((subpaths (.MoveTo p0 :: tl)).flatMap Subpath.segs) :=
+  segs_eq_subpaths p0 tl
+
+/-- `Subpath.segs` is `segs` of the rendered sub-path (any `Scalar`) -/
+theorem subpath_segs_render (b : Subpath K) : segs b.render = some b.segs := by
+  simp only [Subpath.render, segs_moveTo, Subpath.segs]
+
+/-- every body of the decomposition is a run of drawing elements -/
+theorem subpaths_bodies (els : List (PathEl K)) : ∀ b ∈ subpaths els, AllDraw b.body := subpaths_allDraw els
+
+/-- writing sub-paths out and decomposing again is the identity (so `subpaths` loses nothing but implicit starts) -/
+theorem subpaths_render (bs : List (Subpath K)) (h : ∀ b ∈ bs, AllDraw b.body) :
+    subpaths (bs.flatMap Subpath.render) = bs := subpaths_flatMap_render bs h
+
+/-- **`reverse_subpaths` never panics on a path that starts with `MoveTo` and reverses it sub-path by sub-path**:
+    same number and order of sub-paths, each one replaced by its reversal (start ↦ end point of its body, body ↦
+    `reverse_subpath` of it, closed flag unchanged), every sub-path written with an explicit `MoveTo`.
+    Any `Scalar` (also `Float`). -/
+theorem reverseSubpaths_spec (p0 : Point K) (tl : List (PathEl K)) :
+    reverseSubpaths (.MoveTo p0 :: tl)
+        = some (((subpaths (.MoveTo p0 :: tl)).map Subpath.rev).flatMap Subpath.render) ∧
+      ∀ r, reverseSubpaths (.MoveTo p0 :: tl) = some r →
+        subpaths r = (subpaths (.MoveTo p0 :: tl)).map Subpath.rev := by
+  refine ⟨reverseSubpaths_eq_revOut p0 tl, ?_⟩
+  intro r hr
+  rw [reverseSubpaths_eq_revOut] at hr
+  cases hr
+  exact subpaths_revOut _ (subpaths_allDraw _)
+
+example : ∀ b ∈ subpaths (K := Rat) [.MoveTo ⟨0,0⟩, .LineTo ⟨1,0⟩, .ClosePath, .LineTo ⟨1,1⟩], AllDraw b.body :=
+  subpaths_bodies _
+example : (subpaths (K := Rat) [.MoveTo ⟨0,0⟩, .LineTo ⟨1,0⟩, .ClosePath, .LineTo ⟨1,1⟩, .MoveTo ⟨2,2⟩]).length = 3 := by
+  decide +kernel
+
+/-- closedness is preserved by construction -/
+theorem subpath_rev_closed (b : Subpath K) : b.rev.closed = b.closed := rfl
+
+/-- reversing a sub-path twice restores it exactly (elements, hence also segments) -/
+theorem subpath_rev_rev (b : Subpath K) (h : AllDraw b.body) : b.rev.rev = b := b.rev_rev h
+
+/-- open sub-path: the reversed sub-path has the reversed segments in reverse order -/
+theorem subpath_rev_segs_open [LawfulPeq K] (b : Subpath K) (h : AllDraw b.body) (ho : b.closed = false) :
+    b.rev.segs = b.segs.reverse.map PathSeg.reverse := by
+  rw [Subpath.segs_rev b h, Subpath.segs_eq b h, ho]
+  simp
+
+/-- closed sub-path with body segments `d` (`segsT (start,start) body`, the payload of
+    `segs (MoveTo start :: body)` by `segs_moveTo`) ending at `e` (`runEnd`, cf. `reverseSubpath_block`):
+    its segments are `d ++ c` with `c` the closing line (`[Line(e,start)]` if `e ≠ start`, else `[]`);
+    the reversed sub-path starts at `e` and has segments `reverse-of-d ++ reverse-of-c`: the reversed closing line
+    is emitted LAST (by the `ClosePath` of the reversed sub-path), not first. -/
+theorem subpath_rev_segs_closed [LawfulPeq K] (b : Subpath K) (h : AllDraw b.body) (hc : b.closed = true) :
+    let d := segsT (b.start, b.start) b.body
+    let e := runEnd b.start b.body
+    let c := closingSeg b.start e
+    b.segs = d ++ c ∧ b.rev.segs = d.reverse.map PathSeg.reverse ++ c.map PathSeg.reverse ∧
+      b.rev.start = e ∧ (e = b.start → c = []) ∧ (e ≠ b.start → c = [.Line ⟨e, b.start⟩]) := by
+  refine ⟨?_, ?_, rfl, ?_, ?_⟩
+  · rw [Subpath.segs_eq b h, hc]; rfl
+  · rw [Subpath.segs_rev b h, hc, List.map_reverse]; rfl
+  · intro he; rw [he]; exact closingSeg_eq_nil _
+  · intro he; exact closingSeg_ne _ _ he
+
+/-- both cases in one formula: the reversed sub-path's segments are the reversed segments in reverse order,
+    rotated left by the number of closing lines (0 or 1) – "up to the choice of the starting vertex" -/
+theorem subpath_rev_segs_rotate [LawfulPeq K] (b : Subpath K) (h : AllDraw b.body) :
+    b.rev.segs = (b.segs.reverse.map PathSeg.reverse).rotateLeft
+      (if b.closed then (closingSeg b.start (runEnd b.start b.body)).length else 0) :=
+  b.segs_rev_rotate h
+
+/-- segments of the reversed path = concatenation, in the original sub-path order, of the segments of the
+    reversed sub-paths (described by the three theorems above) -/
+theorem reverse_segs [LawfulPeq K] (p0 : Point K) (tl : List (PathEl K)) :
+    (reverseSubpaths (.MoveTo p0 :: tl)).bind segs
+      = some ((subpaths (.MoveTo p0 :: tl)).flatMap fun b => b.rev.segs) :=
+  reverse_segs_aux _ (Or.inr ⟨p0, tl, rfl⟩)
+
+/-- reversing twice gives the path back in normal form: its sub-paths written out with explicit `MoveTo`s
+    (element level; any `Scalar`, also `Float`) -/
+theorem reverse_reverse_els (p0 : Point K) (tl : List (PathEl K)) :
+    (reverseSubpaths (.MoveTo p0 :: tl)).bind reverseSubpaths
+      = some ((subpaths (.MoveTo p0 :: tl)).flatMap Subpath.render) :=
+  reverse_reverse_els_aux _ (Or.inr ⟨p0, tl, rfl⟩)
+
+/-- **reversing twice restores the segment sequence exactly** -/
+theorem reverse_reverse_segs [LawfulPeq K] (p0 : Point K) (tl : List (PathEl K)) :
+    ((reverseSubpaths (.MoveTo p0 :: tl)).bind reverseSubpaths).bind segs = segs (.MoveTo p0 :: tl) :=
+  reverse_reverse_segs_aux _ (Or.inr ⟨p0, tl, rfl⟩)
+
+/-! ### single sub-path, stated with the model functions only -/
+
+/-- a path that is a single open sub-path -/
+theorem reverse_single_open (p : Point K) (body : List (PathEl K)) (h : AllDraw body) :
+    reverseSubpaths (.MoveTo p :: body) = reverseSubpath p body ∧
+    (reverseSubpaths (.MoveTo p :: body)).bind segs
+      = (segs (.MoveTo p :: body)).map (fun ss => ss.reverse.map PathSeg.reverse) := by
+  have hs : subpaths (.MoveTo p :: body) = [⟨p, body, false⟩] := by
+    have := subpaths_single ⟨p, body, false⟩ h
+    simpa [Subpath.render, closer] using this
+  have h1 : reverseSubpaths (.MoveTo p :: body) = reverseSubpath p body := by
+    rw [reverseSubpaths_eq_revOut, hs, reverseSubpath_eq _ _ h]
+    simp [revOut, render_rev, closer]
+  refine ⟨h1, ?_⟩
+  obtain ⟨endp, rev, hr, _, _, _, _, hsegs, _⟩ := reverseSubpath_block p body h
+  rw [h1, hr, Option.bind_some, hsegs]
+
+/-- a path that is a single closed sub-path `MoveTo p :: body ++ [ClosePath]`: the reversed path starts at the
+    end point `endp` of `body`; if `endp ≠ p` the closing line `Line(endp,p)` is the LAST segment of the path and
+    its reverse `Line(p,endp)` is again the LAST segment of the reversed path (so the segment list of the
+    reversed path is the reversed list rotated by one); if `endp = p` there is no closing line on either side. -/
+theorem reverse_single_closed [LawfulPeq K] (p : Point K) (body : List (PathEl K)) (h : AllDraw body) :
+    ∃ endp rev d, reverseSubpath p body = some (.MoveTo endp :: rev) ∧
+      reverseSubpaths (.MoveTo p :: body ++ [.ClosePath]) = some (.MoveTo endp :: rev ++ [.ClosePath]) ∧
+      segs (.MoveTo p :: body) = some d ∧
+      (endp = p → segs (.MoveTo p :: body ++ [.ClosePath]) = some d ∧
+        segs (.MoveTo endp :: rev ++ [.ClosePath]) = some (d.reverse.map PathSeg.reverse)) ∧
+      (endp ≠ p → segs (.MoveTo p :: body ++ [.ClosePath]) = some (d ++ [.Line ⟨endp, p⟩]) ∧
+        segs (.MoveTo endp :: rev ++ [.ClosePath])
+          = some (d.reverse.map PathSeg.reverse ++ [.Line ⟨p, endp⟩])) := by
+  have hr := revBody_isDraw p body h
+  have hs : subpaths (.MoveTo p :: body ++ [.ClosePath]) = [⟨p, body, true⟩] := by
+    have := subpaths_single ⟨p, body, true⟩ h
+    simpa [Subpath.render, closer] using this
+  have e1 : segs (.MoveTo p :: body ++ [.ClosePath])
+      = some (segsT (p, p) body ++ closingSeg p (runEnd p body)) := by
+    rw [List.cons_append, segs_moveTo, segsT_append, stAfterT_draw _ _ _ h]; rfl
+  have e2 : segs (.MoveTo (runEnd p body) :: revBody p body ++ [.ClosePath])
+      = some ((segsT (p, p) body).reverse.map PathSeg.reverse ++ closingSeg (runEnd p body) p) := by
+    rw [List.cons_append, segs_moveTo, segsT_append, stAfterT_draw _ _ _ hr, runEnd_revBody _ _ h,
+      segsT_revBody p _ _ _ h, List.map_reverse]; rfl
+  refine ⟨runEnd p body, revBody p body, segsT (p, p) body, reverseSubpath_eq _ _ h, ?_, segs_moveTo _ _, ?_, ?_⟩
+  · rw [List.cons_append, reverseSubpaths_eq_revOut, ← List.cons_append, hs]
+    simp [revOut, render_rev, closer]
+  · intro he
+    rw [e1, e2, he, closingSeg_eq_nil, List.append_nil, List.append_nil]
+    exact ⟨rfl, rfl⟩
+  · intro he
+    rw [e1, e2, closingSeg_ne _ _ he, closingSeg_ne _ _ (Ne.symm he)]
+    exact ⟨rfl, rfl⟩
+
+/-! concrete behaviour on a closed triangle whose last point differs from its start (`Rat`) -/
+example : reverseSubpaths (K := Rat) [.MoveTo ⟨0,0⟩, .LineTo ⟨1,0⟩, .LineTo ⟨1,1⟩, .ClosePath]
+    = some [.MoveTo ⟨1,1⟩, .LineTo ⟨1,0⟩, .LineTo ⟨0,0⟩, .ClosePath] := by decide +kernel
+example : segs (K := Rat) [.MoveTo ⟨0,0⟩, .LineTo ⟨1,0⟩, .LineTo ⟨1,1⟩, .ClosePath]
+    = some [.Line ⟨⟨0,0⟩,⟨1,0⟩⟩, .Line ⟨⟨1,0⟩,⟨1,1⟩⟩, .Line ⟨⟨1,1⟩,⟨0,0⟩⟩] := by decide +kernel
+example : segs (K := Rat) [.MoveTo ⟨1,1⟩, .LineTo ⟨1,0⟩, .LineTo ⟨0,0⟩, .ClosePath]
+    = some [.Line ⟨⟨1,1⟩,⟨1,0⟩⟩, .Line ⟨⟨1,0⟩,⟨0,0⟩⟩, .Line ⟨⟨0,0⟩,⟨1,1⟩⟩] := by decide +kernel
+/-- implicit sub-path after `ClosePath`: reversing twice makes its `MoveTo` explicit, segments unchanged -/
+example : ((reverseSubpaths (K := Rat) [.MoveTo ⟨0,0⟩, .LineTo ⟨1,0⟩, .ClosePath, .LineTo ⟨1,1⟩]).bind
+      reverseSubpaths)
+    = some [.MoveTo ⟨0,0⟩, .LineTo ⟨1,0⟩, .ClosePath, .MoveTo ⟨0,0⟩, .LineTo ⟨1,1⟩] := by decide +kernel
+
 end Kurbo
